@@ -151,7 +151,7 @@ def obligations_of(prop):
             m = re.match(r"^\s*end\s+(\S+)", line)
             if m and ns and ns[-1] == m.group(1):
                 ns.pop(); continue
-            m = re.match(r"^\s*(?:private\s+|protected\s+)?theorem\s+([A-Za-z_][A-Za-z0-9_.']*)", line)
+            m = re.match(r"^\s*(?:protected\s+)?theorem\s+([A-Za-z_][A-Za-z0-9_.']*)", line)   # `private` helpers of examples are not obligations
             if m:
                 names.append(".".join(ns + [m.group(1)]))
     return names
